@@ -127,8 +127,7 @@ structure Faith (cfg : Cfg) (p : Path) (A B : Val) (r : Res) : Prop where
   ne : ∀ e ∈ r.notEqual, ∃ q, e.path = p ++ q ∧ getAt .left q A = some e.l ∧ getAt .right q B = some e.r
   su : ∀ e ∈ r.selfUnique, ∃ q, e.path = p ++ q ∧ getAt .left q A = some e.v
   ou : ∀ e ∈ r.otherUnique, ∃ q, e.path = p ++ q ∧ getAt .right q B = some e.v
-  dt : ∀ e ∈ r.diffTypes, ∃ q, e.path = p ++ q ∧ getAt .left q A = some e.l ∧
-        (cfg.direct = true → getAt .right q B = some e.r)
+  dt : ∀ e ∈ r.diffTypes, ∃ q, e.path = p ++ q ∧ getAt .left q A = some e.l ∧ getAt .right q B = some e.r
 
 theorem faith_append {cfg : Cfg} {p : Path} {A B : Val} {a b : Res}
     (ha : Faith cfg p A B a) (hb : Faith cfg p A B b) : Faith cfg p A B (a ++ b) := by
@@ -165,7 +164,7 @@ theorem Faith.lift {cfg : Cfg} {p : Path} {seg : PSeg} {A B v w : Val} {r : Res}
     exact ⟨seg :: q, by simp [hp], by simp [getAt, hr, h1]⟩
   · intro e he
     obtain ⟨q, hp, h1, h2⟩ := h.dt e he
-    exact ⟨seg :: q, by simp [hp], by simp [getAt, hl, h1], fun hd => by simp [getAt, hr, h2 hd]⟩
+    exact ⟨seg :: q, by simp [hp], by simp [getAt, hl, h1], by simp [getAt, hr, h2]⟩
 
 /-! ### leaf decisions -/
 
@@ -208,7 +207,7 @@ theorem classifyEntry_shape (cfg : Cfg) (full : Path) (x y : Val) :
 theorem faith_of_shape {cfg : Cfg} {p : Path} {s1 s2 : PSeg} {A B x y : Val} {r : Res}
     (hs : ItemShape (p ++ [s1]) (p ++ [s2]) x y r)
     (h1l : segGet .left s1 A = some x) (h1r : segGet .right s1 B = some y)
-    (h2l : segGet .left s2 A = some x) (h2r : cfg.direct = true → segGet .right s2 B = some y) :
+    (h2l : segGet .left s2 A = some x) (h2r : segGet .right s2 B = some y) :
     Faith cfg p A B r := by
   obtain ⟨hne, hdt, hsu, hou⟩ := hs
   refine ⟨?_, ?_, ?_, ?_⟩
@@ -220,7 +219,7 @@ theorem faith_of_shape {cfg : Cfg} {p : Path} {s1 s2 : PSeg} {A B x y : Val} {r 
   · intro e he
     obtain ⟨hp, hl, hr⟩ := hdt e he
     exact ⟨[s2], hp, by rw [hl]; exact getAt_single _ _ _ _ h2l,
-      fun hd => by rw [hr]; exact getAt_single _ _ _ _ (h2r hd)⟩
+      by rw [hr]; exact getAt_single _ _ _ _ h2r⟩
 
 theorem leftover_eq {cfg : Cfg} {p : Path} {kv : Str × Val} {e : UE} (h : leftover cfg p kv = some e) :
     e = ⟨p ++ [.key kv.1], kv.2⟩ := by
@@ -388,7 +387,7 @@ theorem dictWalk_faith (cfg : Cfg) (p : Path) (sa oa : Val) (c c' : Cls) (skvs o
         | error e => rw [hr] at h; cases h
         | ok r' =>
           rw [hr] at h; cases h
-          exact faith_append (faith_of_shape hcb hL hR hL (fun _ => hR))
+          exact faith_append (faith_of_shape hcb hL hR hL hR)
             (dictWalk_faith cfg p sa oa c c' skvs okvs (still && s) rest r' hs ho hwo hk' hwk.2 hr)
       | descend =>
         rw [hcl] at h
@@ -475,7 +474,7 @@ theorem directWalk_faith (cfg : Cfg) (p : Path) (sa oa : Val) (c c' : Cls) (sl o
       | error e => rw [hr] at h; cases h
       | ok r' =>
         rw [hr] at h; cases h
-        exact faith_append (faith_of_shape hcb hL hR hL (fun _ => hR))
+        exact faith_append (faith_of_shape hcb hL hR hL hR)
           (directWalk_faith cfg p sa oa c c' sl ol (i + 1) xs ys r' hx' hy' hwx.2 hwy.2 hr)
     | descend =>
       rw [hcl] at h
@@ -530,11 +529,8 @@ theorem keyedWalk_faith (cfg : Cfg) (p : Path) (sa oa : Val) (c c' : Cls) (sl ol
         rw [segGet_keyed_left]; exact hx0
       have hR : segGet .right (if i = j then PSeg.idx i else PSeg.idx2 i j) (.list c' ol) = some y := by
         rw [segGet_keyed_right]; exact hy0
-      have hL2 : segGet .left (.idx i) (.list c sl) = some x := by simpa using hx0
-      have hR2 : cfg.direct = true → segGet .right (.idx i) (.list c' ol) = some y := by
-        intro hd'; rw [hd] at hd'; cases hd'
-      have hcb := classifyItem_shape cfg p (p ++ [if i = j then PSeg.idx i else PSeg.idx2 i j]) (p ++ [.idx i]) sa oa x y
-      cases hcl : classifyItem cfg p (p ++ [if i = j then PSeg.idx i else PSeg.idx2 i j]) (p ++ [.idx i]) sa oa x y with
+      have hcb := classifyItem_shape cfg p (p ++ [if i = j then PSeg.idx i else PSeg.idx2 i j]) (p ++ [if i = j then PSeg.idx i else PSeg.idx2 i j]) sa oa x y
+      cases hcl : classifyItem cfg p (p ++ [if i = j then PSeg.idx i else PSeg.idx2 i j]) (p ++ [if i = j then PSeg.idx i else PSeg.idx2 i j]) sa oa x y with
       | emit r0 s =>
         rw [hcl] at h hcb
         simp only at h
@@ -542,7 +538,7 @@ theorem keyedWalk_faith (cfg : Cfg) (p : Path) (sa oa : Val) (c c' : Cls) (sl ol
         | error e => rw [hr] at h; cases h
         | ok r' =>
           rw [hr] at h; cases h
-          exact faith_append (faith_of_shape hcb hL hR hL2 hR2)
+          exact faith_append (faith_of_shape hcb hL hR hL hR)
             (keyedWalk_faith cfg p sa oa c c' sl ol (i + 1) xs ks _ _ r' hd hx' hwx.2 hwo hsr' horr' hr)
       | descend =>
         rw [hcl] at h
@@ -755,8 +751,8 @@ theorem keyedWalk_all (p : Path) (sa oa : Val) (i : Nat) (xs : List Val) (ks : L
       obtain ⟨j, y⟩ := jy
       rw [hf] at h
       simp only at h
-      have hcb := hItem p (p ++ [if i = j then PSeg.idx i else PSeg.idx2 i j]) (p ++ [.idx i]) sa oa x y
-      cases hcl : classifyItem cfg p (p ++ [if i = j then PSeg.idx i else PSeg.idx2 i j]) (p ++ [.idx i]) sa oa x y with
+      have hcb := hItem p (p ++ [if i = j then PSeg.idx i else PSeg.idx2 i j]) (p ++ [if i = j then PSeg.idx i else PSeg.idx2 i j]) sa oa x y
+      cases hcl : classifyItem cfg p (p ++ [if i = j then PSeg.idx i else PSeg.idx2 i j]) (p ++ [if i = j then PSeg.idx i else PSeg.idx2 i j]) sa oa x y with
       | emit r0 s =>
         rw [hcl] at h hcb
         simp only at h
@@ -876,22 +872,24 @@ theorem notEqual_differ (cfg : Cfg) (a b : Val) (r : Res) (htr : cfg.tr = [])
 theorem diffTypes_faithful (cfg : Cfg) (a b : Val) (r : Res) (hw : wf a = true) (hw' : wf b = true)
     (h : compareTop cfg a b = .ok r) :
     ∀ e ∈ r.diffTypes, getAt .left e.path a = some e.l ∧ (cfg.tr = [] → tyOf e.l ≠ tyOf e.r)
-      ∧ (cfg.direct = true → getAt .right e.path b = some e.r) := by
+      ∧ getAt .right e.path b = some e.r := by
   intro e he
   obtain ⟨q, hp, h1, h2⟩ := (compareTop_faith cfg a b r hw hw' h).dt e he
   simp only [List.nil_append] at hp
   rw [hp]
   exact ⟨h1, fun htr => (compareTop_differ cfg a b r htr h).2 e he, h2⟩
 
-/-- why the right operand of a type clash is claimed for direct mode only: inside a keyed list the
-entry is reported at `prefix[i]` (the LEFT index) although the partner sits at another index on the
-right (`'1'` at left index 0 is paired by key with `1` at right index 1). -/
-theorem diffTypes_right_keyed_cex :
-    compareTop (Cfg.default ⟨true, false, false, false, false, true⟩ false)
-        (.list .n0 [.str ['1']]) (.list .n0 [.none, .int 1])
-      = .ok { diffs := 2, diffTypes := [⟨[.idx 0], .str ['1'], .int 1⟩],
-              otherUnique := [⟨[.idx 0], .none⟩] }
-    ∧ getAt .right [.idx 0] (.list .n0 [.none, .int 1]) = some .none := by
+/-- a type clash inside a keyed list is reported at `prefix[i]<>[j]` (fix C09-b): the record `{i: '1'}` at left
+index 0 is paired by its composite key with the plain `dict` `{i: '1'}` at right index 1 -/
+theorem diffTypes_right_keyed_example :
+    compareTop { Cfg.default ⟨true, false, false, false, false, true⟩ false with ck := .one ['i'] }
+        (.list .n0 [.dict .n0 [(['i'], .str ['1'])]])
+        (.list .n0 [.dict .n0 [], .dict .plain [(['i'], .str ['1'])]])
+      = .ok { diffs := 2,
+              diffTypes := [⟨[.idx2 0 1], .dict .n0 [(['i'], .str ['1'])], .dict .plain [(['i'], .str ['1'])]⟩],
+              otherUnique := [⟨[.idx 0], .dict .n0 []⟩] }
+    ∧ getAt .right [.idx2 0 1] (.list .n0 [.dict .n0 [], .dict .plain [(['i'], .str ['1'])]])
+        = some (.dict .plain [(['i'], .str ['1'])]) := by
   decide
 
 /-- the hypothesis `wf` (unique dictionary keys) is needed: on an association list with a repeated
